@@ -107,7 +107,7 @@ pub fn probe_stage(o: Observable<'static, Val>, log: Arc<Mutex<ProbeLog>>) -> Ob
     let (l1, l2, l3) = (log.clone(), log.clone(), log.clone());
     o.verif_inner_subscribe(sctl.new_observer(
       move |_, x: Val| {
-        l1.lock().unwrap().events.push(ProbeEv { seq: rt::seq(), sub, ev: Ev::Next(x.clone()) });
+        l1.lock().unwrap().events.push(ProbeEv { seq: rt::seq(), sub, ev: Ev::Next(x.strip()) });
         s1.sink_next(x);
       },
       move |_, e| {
@@ -230,7 +230,7 @@ pub fn build(j: &Json, ctx: &Ctx) -> Option<Observable<'static, Val>> {
   Some(match op {
     "map" => o.map(move |x: Val| {
       let _t = &tok;
-      Val::Int(x.int() + a)
+      Val::Int(x.int().wrapping_add(a))
     }),
     "map_id" => o.map(move |x: Val| {
       let _t = &tok;
@@ -267,11 +267,11 @@ pub fn build(j: &Json, ctx: &Ctx) -> Option<Observable<'static, Val>> {
     "distinct_until_changed" => o.distinct_until_changed(),
     "scan" => o.scan(move |(acc, x): (Val, Val)| {
       let _t = &tok;
-      Val::Int(acc.int() + x.int())
+      Val::Int(acc.int().wrapping_add(x.int()))
     }),
     "reduce" => o.reduce(move |(acc, x): (Val, Val)| {
       let _t = &tok;
-      Val::Int(acc.int() * 3 + x.int())
+      Val::Int(acc.int().wrapping_mul(3).wrapping_add(x.int()))
     }),
     "count" => o.count().map(|c| Val::Int(c as i64)),
     "sum" => o.sum(),
@@ -301,7 +301,14 @@ pub fn build(j: &Json, ctx: &Ctx) -> Option<Observable<'static, Val>> {
       .flat_map(|g: Observable<'static, Val>| g)
     }
     "materialize" => o.materialize().map(material_to_val),
-    "dematerialize" => o.map(val_to_material).dematerialize(),
+    // a >= 20: items with the same last digit as `a` become Material::Error, a >= 10: Material::Complete
+    "dematerialize" => o
+      .map(move |v: Val| match &v {
+        Val::Int(i) if a >= 20 && i.rem_euclid(10) == a.rem_euclid(10) => Material::Error(mk_err(77)),
+        Val::Int(i) if (10..20).contains(&a) && i.rem_euclid(10) == a.rem_euclid(10) => Material::Complete,
+        _ => val_to_material(v),
+      })
+      .dematerialize(),
     "mat_demat" => o.materialize().dematerialize(),
     "tap" => {
       let (c1, c2, c3) = (ctx.taps.clone(), ctx.taps.clone(), ctx.taps.clone());
